@@ -292,6 +292,21 @@ def implicit_conservative(check, proj, c):
             check.ok("IMPLICIT-FORM", where, "one solve of (a/dt*I + b*J) x = combination of residuals; state := Q + c*x for every equation: conservative for any theta, xi", loc)
 
 
+def global_dt(check, proj):
+    from ..driver_rules import analyse_solve
+    res, _ = analyse_solve(proj)
+    f = proj.func("integration.timemodel._solve")
+    keys = ("main-dt-global", "legacy-array")
+    bad = [(text, ln, key) for rule, status, text, ln, key in res.items if rule == "DRV-DT-MIN" and status == "violation" and key in keys]
+    und = [(text, ln) for rule, status, text, ln, key in res.items if rule == "DRV-DT-MIN" and status == "undecided"]
+    for text, ln, key in bad:
+        check.violation("GLOBAL-DT", "integration.timemodel", text, "%s:%d" % (f.module.relpath, ln or f.node.lineno), key=key)
+    for text, ln in und:
+        check.undecided("GLOBAL-DT", "integration.timemodel", text, "%s:%d" % (f.module.relpath, ln or f.node.lineno))
+    if not bad and not und:
+        check.ok("GLOBAL-DT", "integration.timemodel", "_solve hands the per-cell array to step() only under the dtlocal directive, solve_legacy never: every cell advances by the same scalar step", f.loc())
+
+
 def body(check):
     proj = check.proj
     check.explanation = ("static analysis: (1) access-relation decoding of calc_res / calc_bc (1D and 2D) shows the volume-weighted "
@@ -326,6 +341,9 @@ def body(check):
         if o.rule in ("SRC-ONCE", "NOZ-COMPOSE"):
             o.rule = "SRC-DECLARED"
     check.guarded("UPDATE-LINEAR", "integration", lambda: update_linear(check, proj))
+    # "... a solve with any integrator using ONE GLOBAL time step": the drivers hand a scalar to step()
+    # unless the local-time-step directive is on (driver interpretation, shared with C07 / C18)
+    check.guarded("GLOBAL-DT", "integration.timemodel", lambda: global_dt(check, proj))
     # implicit family: what conservation needs of the linear system (any theta, any xi)
     for c in c06.implicit_classes(proj):
         check.guarded("IMPLICIT-FORM", c.qualname, lambda: implicit_conservative(check, proj, c), c.loc())
